@@ -454,12 +454,81 @@ func c19HostIPChanged(c *Ctx) {
 	if f == nil {
 		return
 	}
+	// roles of hostIPChanged's inputs. The two address lists are the parameters that receive the resolver callback's
+	// (added, removed) at the one call site (positions 4 and 5 on the pinned tree); protocol, local address and port are
+	// "settings": a parameter, or a field of a parameter that packs them, each role filled by one and the same input at
+	// all its uses
+	addedIdx, removedIdx := 4, 5
+	if cr := w.Fn("CreateRoundRobinBackend"); cr != nil {
+		for _, cl := range cr.AnonFuncs {
+			for _, cs := range w.callsIn(cl, "(*RoundRobinBackend).hostIPChanged") {
+				if len(cl.Params) == 3 {
+					for ai, a := range cs.In.Common().Args {
+						if strip(a) == ssa.Value(cl.Params[1]) {
+							addedIdx = ai
+						}
+						if strip(a) == ssa.Value(cl.Params[2]) {
+							removedIdx = ai
+						}
+					}
+				}
+			}
+		}
+	}
+	var setting func(v ssa.Value, d int) bool
+	setting = func(v ssa.Value, d int) bool {
+		v = strip(v)
+		for i, p := range f.Params {
+			if v == ssa.Value(p) {
+				return i != 0 && i != addedIdx && i != removedIdx
+			}
+		}
+		if ref, base := loadedField(v); ref != "" && d < 2 {
+			b := strip(base)
+			if al, isAl := b.(*ssa.Alloc); isAl { // a by-value struct parameter spilled to a local cell
+				var src ssa.Value
+				n := 0
+				for _, r := range *al.Referrers() {
+					if st, isSt := r.(*ssa.Store); isSt && st.Addr == ssa.Value(al) {
+						src = st.Val
+						n++
+					}
+				}
+				if n == 1 {
+					b = strip(src)
+				}
+			}
+			for i, p := range f.Params {
+				if b == ssa.Value(p) {
+					return i != 0 && i != addedIdx && i != removedIdx
+				}
+			}
+		}
+		return false
+	}
+	roleKey := map[string]string{}
+	inRole := func(role string, v ssa.Value) bool {
+		if !setting(v, 0) {
+			return false
+		}
+		k := w.termKey(strip(v))
+		if have, ok := roleKey[role]; ok {
+			return have == k
+		}
+		for r, have := range roleKey {
+			if r != role && have == k {
+				return false // one input cannot fill two roles
+			}
+		}
+		roleKey[role] = k
+		return true
+	}
 	var newLoop, remLoop *rangeLoop
 	for _, rl := range rangeLoops(f) {
-		if isParam(f, rl.Over, 4) {
+		if isParamSSA(f, rl.Over, addedIdx) {
 			newLoop = rl
 		}
-		if isParam(f, rl.Over, 5) {
+		if isParamSSA(f, rl.Over, removedIdx) {
 			remLoop = rl
 		}
 	}
@@ -469,7 +538,7 @@ func c19HostIPChanged(c *Ctx) {
 	}
 	isHP := func(v ssa.Value, loop *rangeLoop) bool {
 		cc := w.resultOfCallTo(v, "(*RoundRobinBackend).createHostPort", 0)
-		return cc != nil && loop.isElem(callArg(cc, 0)) && isParam(f, callArg(cc, 1), 6)
+		return cc != nil && loop.isElem(callArg(cc, 0)) && inRole("port", callArg(cc, 1))
 	}
 	// additions
 	nAdd := 0
@@ -505,8 +574,8 @@ func c19HostIPChanged(c *Ctx) {
 					okErr = w.requires(f, pr.At, errNil(ctor), true)
 				}
 				want := map[string]string{"NewUDPBackend": "udp", "NewTCPBackend": "tcp"}[w.calleeName(ctor)]
-				proto := func(a Atom) bool { return a.Kind == "eqstr" && a.Str == want && isParam(f, a.X, 1) }
-				if okErr && isHP(ctor.Call.Args[1], newLoop) && isParam(f, ctor.Call.Args[0], 2) && w.requires(f, ctor, proto, true) {
+				proto := func(a Atom) bool { return a.Kind == "eqstr" && a.Str == want && inRole("protocol", a.X) }
+				if okErr && isHP(ctor.Call.Args[1], newLoop) && inRole("local", ctor.Call.Args[0]) && w.requires(f, ctor, proto, true) {
 					kinds[want] = true
 				} else {
 					good = false
@@ -554,7 +623,8 @@ func c19HostIPChanged(c *Ctx) {
 				n++
 				c.Fns[w.fname(cl)] = true
 				a := cs.In.Common().Args
-				good := len(a) == 8 && len(cl.Params) == 3 && strip(a[3]) == ssa.Value(cl.Params[0]) && strip(a[4]) == ssa.Value(cl.Params[1]) && strip(a[5]) == ssa.Value(cl.Params[2])
+				good := len(cl.Params) == 3 && addedIdx < len(a) && removedIdx < len(a) && addedIdx != removedIdx && strip(a[addedIdx]) == ssa.Value(cl.Params[1]) && strip(a[removedIdx]) == ssa.Value(cl.Params[2])
+				// the parameter that takes `added` is a list walked by the addition loop, the other by the removal loop (above)
 				c.check(good, rule, "CreateRoundRobinBackend/callback-arguments", w.ipos(cs.In), "callback(host, added, removed) forwards (host, added, removed)", "the resolver callback does not forward (hostname, newIPs, removedIPs) to hostIPChanged in this order")
 			}
 		}
@@ -691,6 +761,9 @@ func c19Addresses(c *Ctx, rule string) {
 					txt := renderParts(sv.parts, func(x ssa.Value) string {
 						for i, p := range f.Params {
 							if strip(x) == ssa.Value(p) {
+								if recvDropped[f] {
+									i++
+								}
 								return fmt.Sprintf("p%d", i)
 							}
 						}
@@ -714,6 +787,35 @@ func c19Addresses(c *Ctx, rule string) {
 			cc, _ := callOfResult(r.Results[0])
 			if cc != nil && strings.HasSuffix(w.calleeName(cc), "UDPAddr).String") {
 				if b, ok := isLoadOf(callArg(cc, -1), "UDPBackend.backendAddr"); ok && isParam(f, b, 0) {
+					good = true
+				}
+			}
+			// or a field of the backend that holds that text: filled, wherever it is stored, with X.String() of the very
+			// address stored into backendAddr of the same object, both stored only there
+			if ref, b := loadedField(r.Results[0]); strings.HasPrefix(ref, "UDPBackend.") && ref != "UDPBackend.backendAddr" && isParam(f, b, 0) {
+				nText, nAddr, okAll := 0, 0, true
+				for _, fn := range w.All {
+					texts, addrs := w.fieldStores(fn, ref), w.fieldStores(fn, "UDPBackend.backendAddr")
+					nText += len(texts)
+					nAddr += len(addrs)
+					for _, st := range texts {
+						sc, _ := callOfResult(st.Val)
+						if sc == nil || !strings.HasSuffix(w.calleeName(sc), "UDPAddr).String") {
+							okAll = false
+							continue
+						}
+						same := false
+						for _, ad := range addrs {
+							if strip(ad.Val) == strip(callArg(sc, -1)) && ad.Addr.(*ssa.FieldAddr).X == st.Addr.(*ssa.FieldAddr).X {
+								same = true
+							}
+						}
+						if !same {
+							okAll = false
+						}
+					}
+				}
+				if okAll && nText >= 1 && nText == nAddr {
 					good = true
 				}
 			}
